@@ -84,6 +84,16 @@ class Pair:
                 ep = sim.owner_of(dst)
                 if ep is not None:
                     sent = ep.datagram(dst, src, data)
+        elif kind == 'corrupt':
+            # a bit-flipped copy of the j-th datagram ever SENT (delivered or still in flight), to its destination
+            if self.history:
+                src, dst, data = self.history[action[1] % len(self.history)]
+                pos = action[2] % len(data)
+                data = data[:pos] + bytes([data[pos] ^ (1 << (action[3] % 8))]) + data[pos + 1:]
+                ep = sim.owner_of(dst)
+                if ep is not None:
+                    sent = ep.datagram(dst, src, data)
+                    sent = [d for d in sent if False]      # replies to corrupted input are not part of the legitimate flow
         elif kind == 'tick':
             sim.clock += action[1]
             sent = self.A.tick() + self.B.tick()
